@@ -39,3 +39,9 @@ Fixpoint list_update {A} (l : list A) (i : nat) (x : A) : list A :=
   | _ :: t, O => x :: t
   | h :: t, S i' => h :: list_update t i' x
   end.
+
+Fixpoint outcome_map_pairs {A B} (f : A -> outcome B) (l : list A) : outcome (list B) :=
+  match l with
+  | [] => Ok []
+  | x :: r => do y <- f x; do ys <- outcome_map_pairs f r; Ok (y :: ys)
+  end.
